@@ -122,6 +122,16 @@ Theorem bookkeeping_section_needed :
 Proof. exact bookkeeping_section_needed_proved. Qed.
 Print Assumptions bookkeeping_section_needed.
 
+(* the close worker's test of DestroyedC (generated fact close_worker_checks_destroyed) is
+   needed for "Close at most once": a worker that saw the node before StopShard counts itself in
+   afterwards (the generated facts say the increment happens outside NodeHost.mu), the counter
+   reaches zero twice and the node reaches the close pool twice *)
+Theorem close_destroyed_test_needed :
+  nclose (run (cfg_close_twice Plain 1) (init 4) late_load_schedule) = 2
+  /\ nclose (run (gen_cfg Plain 1) (init 4) late_load_schedule) = 1.
+Proof. exact close_destroyed_test_needed_proved. Qed.
+Print Assumptions close_destroyed_test_needed.
+
 (* ---- the sequential apply path ---- *)
 (* the indexes handed to Update are strictly increasing, for every task queue the apply path
    handles without a panic ([a_err] = 0; on an index gap the real apply path has already
